@@ -27,6 +27,7 @@ SCENARIOS = {
     # pid -> list of (name, argv, counts-as-evaluations)
     "C07": [("frame-search", ["frame-search"]), ("frame-deep", ["frame-deep", "200000"])],
     "C08": [("frame-search", ["frame-search"]), ("conn-search", ["conn-search"]), ("decimal-search", ["decimal-search", "10000000"])],
+    "C17": [("store-closed", ["store-closed"])],
     "C10": [("frame-search", ["frame-search"]), ("frame-deep", ["frame-deep", "200000"]), ("server-hostile", ["server-hostile"])] + [("server-search", ["server-search", str(i)]) for i in range(4)],
     "C06": [("frame-search", ["frame-search"]), ("conn-search", ["conn-search"])] + [("server-search", ["server-search", str(i)]) for i in range(24)],
 }
